@@ -161,6 +161,12 @@ func runDaemon(t *testing.T, tape *simrt.Tape) *hx.Outcome {
 		}
 		mt.Join(ts...)
 	})
+	if res.Verdict == "panic" && altered != nil && len(res.Violations) == 0 {
+		// a crash on altered bytes is property C04's business (as in the main campaign)
+		out.Counters["panic_on_altered_input(C04)"]++
+		res.Verdict = ""
+		res.PanicInfo = ""
+	}
 	out.Res = res
 	out.Counters["daemon.mounts_ok"] += mountsOK
 	out.Counters["daemon.mounts_failed"] += mountsFailed
